@@ -369,6 +369,9 @@ package vm
 //@   requires sdbInv(d)
 //@   modifies d.currentCtx, d.touched, d.refund, d.selfDestructed, d.accessList, d.logs, d.transientStorage, d.snapshots, contents(d.snapshots)
 //@   ensures[C03.revert_len,C08.working_layer_only,C02.sub_snapshot_revert] len(d.snapshots) == id + 2
+// (lemma, assert-then-assume, stated early where the path is short) the record's transient storage is the concrete type:
+// the precondition of the interface call Clone() then does not depend on solver luck
+//@   at call types.Context.CacheContext@1 assert[C03.lemma_record_transient_type,C02.lemma_record_transient_type,C08.lemma_record_transient_type] typeof(snapshotState.transientStorage) == type(transientStorage)
 //@   ensures[C03.revert_older_records] forall i int :: (0 <= i && i <= id) ==> d.snapshots[i] == old(d.snapshots[i])
 //@   ensures[C03.revert_record_kept] d.snapshots[id + 1].id == id && d.snapshots[id + 1].touched == old(d.snapshots[id + 1].touched) && d.snapshots[id + 1].selfDestructed == old(d.snapshots[id + 1].selfDestructed) && d.snapshots[id + 1].accessList == old(d.snapshots[id + 1].accessList) && d.snapshots[id + 1].logs == old(d.snapshots[id + 1].logs) && d.snapshots[id + 1].transientStorage == old(d.snapshots[id + 1].transientStorage) && d.snapshots[id + 1].refund == old(d.snapshots[id + 1].refund)
 //@   ensures[C03.revert_view] d.currentCtx == d.snapshots[id + 1].snapshotCtx && viewEq(layer(d.currentCtx), old(layer(d.snapshots[id].snapshotCtx))) && lyrParent(layer(d.currentCtx)) == old(layer(d.snapshots[id].snapshotCtx))
